@@ -1,5 +1,6 @@
 """C01 — boolean expressions mean what the Python source means."""
 import collections
+import os
 import random
 import signal
 
@@ -107,6 +108,8 @@ def corpus(tier, seed):
     out = [("suite", s) for s in progs.suite_programs()]
     out += [("struct", s) for s in gen.struct_templates()]
     out += [("int-template", s) for s in gen.int_templates((2, 3, 4))]
+    out += [("fixed-template", s) for s in gen.fixed_templates()]
+    out += [("control", s) for s in gen.control_templates()]
     nb, ni = (120, 250) if tier == "quick" else (2000, 5000)
     out += [("rand-bool", gen.bool_program(rng)) for _ in range(nb)]
     out += [("rand-int", gen.int_program(rng)) for _ in range(ni)]
@@ -171,6 +174,8 @@ def run(tier, seed):
     # the operator-level correspondence of the types layer (model <-> implementation)
     types_cov = {}
     try:
+        if "theories/Chk_Types.v" not in open(os.path.join(C.COQ, "_CoqProject")).read():
+            raise ImportError("types layer not integrated yet")
         from . import c01_types
         tc = c01_types.collect(tier, seed)
         types_cov = dict(cases=tc.get("cases"), distinct=tc.get("distinct"), distribution=tc.get("distribution"))
